@@ -48,6 +48,7 @@ Theorem C04_scoped_call :
       exists w1 w2 evR,
         run nopw t (raw_lock fuel m (alg_of am s)) w = (ODone VUnit, w1) /\
         eff w w1 (acq_all t m (kleaves s) (w_raw w)) /\
+        run nopw t (closure m (gitems s) body) w1 = ((if existsb is_cpanic body then OPanic else ODone VUnit), w2) /\
         frame (emit w1 (EMark t 1)) w2 /\ w_trace w' = evR ++ w_trace w2 /\ Forall tail_ev evR.
 Proof. exact scoped_call_quiet. Qed.
 
